@@ -45,7 +45,7 @@ func (t *vfC03Tap) len() int {
 }
 
 // RESULT/Prepared with n blob bind columns (named c0..) and no result columns
-func vfC03PreparedBody(version byte, id []byte, n int) []byte {
+func vfC03PreparedBody(version byte, id []byte, n int, resultCols int) []byte {
 	w := &vfW{}
 	w.Int(4)
 	w.ShortBytes(id)
@@ -59,8 +59,12 @@ func vfC03PreparedBody(version byte, id []byte, n int) []byte {
 		w.Short(vfTBlob)
 	}
 	if version >= 2 {
-		w.Int(0x01).Int(0)
+		w.Int(0x01).Int(int32(resultCols))
 		w.String("ks").String("t")
+		for i := 0; i < resultCols; i++ {
+			w.String(fmt.Sprintf("v%d", i))
+			w.Short(vfTBlob)
+		}
 	}
 	return w.b
 }
@@ -154,6 +158,13 @@ type vfC03Sess struct {
 	ops      int
 	frames   int
 	unexpl   int
+	paged    int
+
+	// paging script of the node
+	pmu       sync.Mutex
+	pagesLeft int      // pages that still follow the next answer
+	pageNo    int
+	replied   [][]byte // paging state of every rows answer, in order (nil = last page)
 }
 
 func (s *vfC03Sess) apiValues(n int) []vfC03ApiVal {
@@ -280,8 +291,9 @@ func (s *vfC03Sess) opQuery() {
 	main.Cons = s.g.pick(1, 4, 6, 10)
 	q.Consistency(Consistency(main.Cons))
 	main.Pagesize = s.sess.cfg.PageSize
-	if s.g.chance(0.5) {
-		main.Pagesize = s.g.pick(1, 100, 65536)
+	if s.g.chance(0.6) {
+		// "a value <= 0 will disable paging"
+		main.Pagesize = s.g.pick(1, 100, 65536, 0, -1, -2147483648)
 		q.PageSize(main.Pagesize)
 	}
 	if s.g.chance(0.3) {
@@ -316,6 +328,92 @@ func (s *vfC03Sess) opQuery() {
 	}
 	expect = append(expect, main)
 	s.run(expect, func() error { return q.Exec() })
+}
+
+// opPaged: one *Query value with automatic paging whose result spans several pages is executed
+// and read to the end, then THE SAME value is executed again (1-2 times).  What the caller asked
+// for: every execution starts without a paging state (none was set with PageState); each
+// following request of an execution carries the state the server returned with the page before.
+func (s *vfC03Sess) opPaged() {
+	if s.v < 2 {
+		return // no paging in v1
+	}
+	stmt := fmt.Sprintf("SELECT v0 FROM ks.t%d WHERE c0 = ?", s.g.r.Intn(3))
+	arg := vfC03ApiVal{shape: "bytes", b: vfC03B(s.g.bytes(3))}
+	q := s.sess.Query(stmt, arg.arg())
+	cons := s.g.pick(1, 4, 6)
+	q.Consistency(Consistency(cons))
+	psz := s.g.pick(2, 2, 100)
+	q.PageSize(psz)
+	q.DefaultTimestamp(false)
+	trace := 0
+	if s.g.chance(0.2) {
+		trace = 1
+		q.Trace(vfC03Tracer{})
+	}
+	for ex, n := 0, s.g.pick(2, 2, 3); ex < n; ex++ {
+		s.pmu.Lock()
+		s.pagesLeft = s.g.pick(1, 1, 2, 3)
+		r0 := len(s.replied)
+		s.pmu.Unlock()
+		n0 := s.tap.len()
+		errText := ""
+		func() {
+			defer func() {
+				if r := recover(); r != nil {
+					errText = fmt.Sprintf("panic: %v", r)
+				}
+			}()
+			it := q.Iter()
+			var b []byte
+			for it.Scan(&b) {
+			}
+			if err := it.Close(); err != nil {
+				errText = "error: " + err.Error()
+			}
+		}()
+		got := s.tap.since(n0)
+		s.pmu.Lock()
+		replied := append([][]byte{}, s.replied[r0:]...)
+		s.pagesLeft = 0
+		s.pmu.Unlock()
+		s.ops++
+		if errText != "" {
+			s.unexpl++
+			return
+		}
+		if len(got) > 0 && got[0].Op == vfOpPrepare {
+			c := s.prepareCase(stmt, trace)
+			vfC03Norm(c)
+			c.Stream, c.Bytes = got[0].Stream, vfC03I(got[0].Raw)
+			s.o.put(s.t, c)
+			s.frames++
+			got = got[1:]
+		}
+		if len(got) != len(replied) {
+			s.unexpl++ // the node answered something else than the requests seen here
+			return
+		}
+		for j, f := range got {
+			c := s.base("EXECUTE")
+			c.Pid = vfC03I([]byte("id:" + stmt))
+			c.Values = []vfC03Value{arg.logical()}
+			c.Cons, c.Pagesize, c.Trace = cons, psz, trace
+			c.Serial = int(s.sess.cfg.SerialConsistency)
+			c.Ks = vfC03I([]byte(s.ks))
+			if !s.sess.cfg.DisableSkipMetadata {
+				c.Skipmeta = 1
+			}
+			if j > 0 {
+				c.Pstate = vfC03I(replied[j-1]) // what the server handed out with the previous page
+			}
+			vfC03Norm(c)
+			c.Stream, c.Bytes = f.Stream, vfC03I(f.Raw)
+			s.o.put(s.t, c)
+			s.frames++
+		}
+		s.paged += len(got)
+	}
 }
 
 func (s *vfC03Sess) opBatch() {
@@ -429,7 +527,28 @@ func TestVfC03Session(t *testing.T) {
 		node.Handler = func(nc *vfNodeConn, f *vfFrame, q *vfRequest) bool {
 			switch f.Op {
 			case vfOpPrepare:
-				nc.Reply(f, vfOpResult, vfC03PreparedBody(f.Version, []byte("id:"+q.Stmt), strings.Count(q.Stmt, "?")))
+				rc := 0
+				if strings.HasPrefix(q.Stmt, "SELECT") {
+					rc = 1
+				}
+				nc.Reply(f, vfOpResult, vfC03PreparedBody(f.Version, []byte("id:"+q.Stmt), strings.Count(q.Stmt, "?"), rc))
+				return true
+			case vfOpExecute:
+				// a SELECT is answered page by page as scripted: s.pages more pages to come
+				if !strings.HasPrefix(string(q.PreparedID), "id:SELECT") {
+					return false
+				}
+				s.pmu.Lock()
+				var state []byte
+				if s.pagesLeft > 0 {
+					s.pagesLeft--
+					s.pageNo++
+					state = []byte(fmt.Sprintf("state-%d", s.pageNo))
+				}
+				s.replied = append(s.replied, state)
+				s.pmu.Unlock()
+				rows := [][][]byte{{[]byte{1}}, {[]byte{2}}}
+				nc.Reply(f, vfOpResult, vfRowsBody(f.Version, "ks", "t", []vfCol{{"v0", vfTBlob}}, rows, state, false))
 				return true
 			case vfOpAuthResponse:
 				amu.Lock()
@@ -457,6 +576,9 @@ func TestVfC03Session(t *testing.T) {
 			cfg.Keyspace = s.ks
 			cfg.DisableSkipMetadata = !skipMeta
 			cfg.CQLVersion = cql
+			if g.chance(0.2) {
+				cfg.PageSize = g.pick(0, -1, -100)
+			}
 			if g.chance(0.3) {
 				cfg.SerialConsistency = LocalSerial
 			}
@@ -505,10 +627,13 @@ func TestVfC03Session(t *testing.T) {
 			s.unexpl++
 		}
 		for k, n := 0, g.pick(2, 3, 4); k < n; k++ {
-			if g.chance(0.7) {
+			switch x := g.r.Intn(10); {
+			case x < 6:
 				s.opQuery()
-			} else {
+			case x < 8:
 				s.opBatch()
+			default:
+				s.opPaged()
 			}
 		}
 		sess.Close()
